@@ -127,12 +127,32 @@ theorem start_establishes_invariant (kind : Kind) (alloc : Bool) (ob : OutBuf) (
       cases prev <;> (simp only [start, this] at h; injection h with h; subst h; simp [Good]; omega)
   | reuse d =>
     by_cases hd : d = 0
-    · subst hd; simp only [start] at h; exact fresh _ _ h
+    · subst hd
+      cases prev with
+      | none => simp only [start, beq_self_eq_true, Bool.not_false, Bool.and_self, if_true] at h; exact fresh _ _ h
+      | some p =>
+        have hp := hprev p rfl
+        cases kind with
+        | std =>
+          have e : (Kind.std == Kind.tj) = false := rfl
+          simp only [start, e, beq_self_eq_true, Bool.false_and, Bool.not_false, Bool.and_self, if_true] at h
+          exact fresh true _ (by rw [if_pos rfl]; exact h)
+        | tj =>
+          cases alloc with
+          | false =>
+            simp only [start, beq_self_eq_true, Bool.and_false, Bool.not_false, Bool.and_self, if_true] at h
+            exact fresh _ _ h
+          | true =>
+            -- the recognised buffer keeps its capacity; the size 0 handed back with it is ignored (repair of D41)
+            simp only [start, beq_self_eq_true, Bool.and_self, Bool.not_true, Bool.and_false, Bool.false_eq_true, if_false] at h
+            injection h with h; subst h
+            simp only [Good, List.length_nil, and_true]
+            simp; omega
     · have : (d == 0) = false := by simp [hd]
       cases prev with
-      | none => simp only [start, this] at h; injection h with h; subst h; simp [Good]; omega
+      | none => simp only [start, this, Bool.false_and] at h; injection h with h; subst h; simp [Good]; omega
       | some p =>
-        simp only [start, this] at h
+        simp only [start, this, Bool.false_and] at h
         injection h with h; subst h
         simp only [Good, List.length_nil, and_true]
         have hp := hprev p rfl
